@@ -147,6 +147,24 @@ func TestEnumManyTracks(t *testing.T) {
 	}
 }
 
+var exactSize = ev.NewCheck("C03", "exact-size-tracks",
+	"enumeration: values whose last track body is exactly 65536, 131072, 196608 or 262144 bytes long, and one byte less / more; same strict-parser oracle as 'written-files' (chunk length == bytes of the body, nothing missing at the end)",
+	nil, run)
+
+func TestEnumExactSizeTracks(t *testing.T) {
+	exactSize.R.Exhaustive = true
+	i := 0
+	for _, size := range []int{65536, 131072, 196608, 262144} {
+		for _, d := range []int{-1, 0, 1} {
+			i++
+			if i%ev.Shards() != ev.Shard() {
+				continue
+			}
+			exactSize.One(t, gen.ExactSizeTrack(size+d, i%2 == 1))
+		}
+	}
+}
+
 // ---- VLQ codec ------------------------------------------------------------------------
 
 type VLQCase struct{ N uint32 }
